@@ -83,6 +83,9 @@ def run(ctx):
         ctx.anchor_missing(r_total, "parser entry points (found %d of 4)" % len(roots))
     total_rule(ctx, r_total, prog, roots, load_safe("C09"), 40, 40)
 
+    ws_rule(ctx, syn)
+    limit_rule(ctx, syn)
+
     # ---------------- keyword tables
     r_kw = ctx.rule("C09.KW", "every keyword a printer can emit is accepted by the parser")
     cparse = syn.fn("parse", self_ty="Constraint")
@@ -181,3 +184,125 @@ def run(ctx):
                 missing = [w for w in words if w not in qlits]
                 if missing:
                     ctx.report(r_kw, "qualifier:" + " ".join(words), "SelectionQualifier::as_str prints '%s' but parse_qualifiers does not mention %s" % (n["body"]["v"], missing), sq[0].file, n["l"])
+
+
+# ---------------------------------------------------------------------- WS and LIMIT
+def ws_rule(ctx, syn):
+    """the parser has one notion of whitespace.  Several slices (`&querystring[1..]` after a test on
+    `querystring.trim_start()`) are safe only because every remainder handed on was stripped with the
+    same Unicode-aware trim_start(); stripping with an ASCII character set anywhere breaks that."""
+    r = ctx.rule("C09.WS", "the parser strips whitespace with one definition of whitespace (str::trim_start / trim / trim_end) everywhere")
+    consts = {}
+    for name, c in syn.consts.items():
+        if c.get("_file") == "src/api/query.rs":
+            consts[name] = unparse(c.get("value") or c.get("e") or {}) if isinstance(c.get("value") or c.get("e"), dict) else str(c.get("value") or "")
+    n_trim = 0
+    for f in syn.fns:
+        if f.file != "src/api/query.rs" or f.body is None:
+            continue
+        if not (f.name.startswith("parse") or f.name in ("get_arg", "try_from", "closed")):
+            continue
+        ctx.functions_analysed.add(f.qual)
+        cnt = {}
+        for c in find(f.body, "mcall"):
+            if c["method"] in ("trim_start", "trim_end", "trim") and not c["args"]:
+                n_trim += 1
+                r.hit("%s|%s#%d" % (f.name, c["method"], n_trim))
+            if c["method"] in ("trim_start_matches", "trim_end_matches", "trim_matches", "strip_prefix") and c["args"]:
+                a = unparse(strip_(c["args"][0]))
+                isws = False
+                if a in consts and ("' '" in consts[a] or "\\n" in consts[a] or not consts[a]):
+                    isws = True
+                if re.search(r"' '|\" \"|char::is_whitespace|is_ascii_whitespace", a):
+                    isws = True
+                if a.isupper() and a in syn.consts:
+                    isws = True
+                cnt[c["method"]] = cnt.get(c["method"], 0) + 1
+                if isws:
+                    ctx.report(r, "%s|%s(%s)#%d" % (f.name, c["method"], a, cnt[c["method"]]), "%s strips whitespace with %s(%s), a different (narrower) notion of whitespace than the trim_start() the rest of the parser relies on: a remainder can keep a leading non-ASCII space and the next `[1..]` slice then cuts a character in two" % (f.qual, c["method"], a), f.file, c.get("l"))
+    ctx.floor(r, n_trim, 25, "trim_start()/trim() sites in the parser")
+
+
+def strip_(e):
+    from synq import strip
+    return strip(e)
+
+
+def limit_rule(ctx, syn):
+    """print/parse fixpoint of the LIMIT constraint: finite evaluation of the printer arm and of the
+    parser arm on every (begin, end) in [-3, 3]^2"""
+    from formula import Evaluator, Unknown, Panic, StructVal, EnumVal, SInt, ok, err, some
+    r = ctx.rule("C09.LIMIT", "parse(print(LIMIT begin end)) == (begin, end) for every sign combination")
+    cparse = syn.fn("parse", self_ty="Constraint")
+    cprint = syn.fn("to_string", self_ty="Constraint")
+    closed = syn.fn("closed", self_ty="Constraint")
+    parm = None
+    for n in walk(cparse.body):
+        if n.get("k") == "arm" and re.sub(r"\s+", "", n["pat"]["s"]) == 'Some("LIMIT")':
+            parm = n
+    prm = None
+    for n in walk(cprint.body):
+        if n.get("k") == "arm" and re.sub(r"\s+", "", n["pat"]["s"]).startswith("Self::Limit{"):
+            prm = n
+    if parm is None or prm is None:
+        ctx.anchor_missing(r, "LIMIT arms of Constraint::parse / Constraint::to_string")
+        return
+
+    def fmt_hook(ev, node, env):
+        args = node.get("args") or []
+        if not args or args[0].get("k") != "lit":
+            raise Unknown("format! without literal")
+        out = args[0]["v"]
+        for a in args[1:]:
+            v = ev.eval(a, env)
+            out = out.replace("{}", str(int(v)) if isinstance(v, int) and not isinstance(v, bool) else str(v), 1)
+        return out.replace("{{", "{").replace("}}", "}")
+
+    def get_arg(ev, recv, args, node, env):
+        q = args[0]
+        m = re.match(r"([^ ;\n\t\]]+)(.*)$", q, re.S)
+        if not m:
+            return err("syntax")
+        return ok((m.group(1), m.group(2).lstrip(), EnumVal("Integer")))
+    from props.c10 import base_hooks
+    hooks = base_hooks()
+    hooks["macro:format"] = fmt_hook
+    hooks["call:get_arg"] = get_arg
+    hooks["map_err"] = lambda ev, recv, args, node, env: recv
+    hooks["trim_start"] = lambda ev, recv, args, node, env: recv.lstrip() if isinstance(recv, str) else NotImplemented
+
+    def h_closed(ev, recv, args, node, env):
+        sub = Evaluator(hooks=hooks)
+        return sub.run_body(closed.body, {"querystring": args[0]})
+    hooks["call:Self::closed"] = h_closed
+    reported = set()
+    n = 0
+    for b in range(-3, 4):
+        for e in range(-3, 4):
+            try:
+                ev = Evaluator(hooks=hooks)
+                env = {"s": "", "begin": SInt(b), "end": SInt(e)}
+                holder = {}
+
+                def assign(name, val, env=env):
+                    env[name] = val
+                env["__assign__"] = assign
+                ev.eval(prm["body"], env)
+                text = env["s"]
+                ev = Evaluator(hooks=hooks)
+                val = ev.run_body({"k": "block", "stmts": [{"k": "exprstmt", "e": parm["body"], "semi": False}]}, {"querystring": text.strip()})
+            except (Unknown, Panic) as ex:
+                if "unevaluated" not in reported:
+                    reported.add("unevaluated")
+                    ctx.report(r, "unevaluated", "the LIMIT arms of the printer / parser could not be evaluated (%s): their agreement is not established" % ex, cparse.file, parm.get("l"))
+                continue
+            n += 1
+            got = (val.get("begin"), val.get("end")) if isinstance(val, dict) else val
+            r.hit("%d,%d" % (b, e), sample={"constraint": (b, e), "printed": text.strip(), "parsed": repr(got)} if (b, e) in ((0, -2), (1, 2), (-2, 0), (0, 2)) else None)
+            if got != (b, e):
+                sign = lambda x: "neg" if x < 0 else ("zero" if x == 0 else "pos")
+                key = "begin-%s,end-%s" % (sign(b), sign(e))
+                if key not in reported:
+                    reported.add(key)
+                    ctx.report(r, key, "Constraint::Limit{begin:%d,end:%d} prints as `%s`, which parses back as %r" % (b, e, text.strip(), got), cprint.file, prm.get("l"))
+    ctx.floor(r, n, 49, "LIMIT print/parse evaluations")
